@@ -206,7 +206,7 @@ class MinFlowDecompCycles(walkmodel.AbstractWalkModelDiGraph):
         if self.optimization_options.get("optimize_with_guessed_weights", MinFlowDecompCycles.optimize_with_given_weights):            
             self._solve_with_given_weights()
 
-        for i in range(self.get_lowerbound_k(), self.G.number_of_edges()):
+        for i in range(self.get_lowerbound_k(), self.G.number_of_edges() + 1):
             utils.logger.info(f"{__name__}: solving with k = {i}")
             fd_model = None
             # Checking if we have already found a solution with the same number of walks
